@@ -17,6 +17,7 @@
     stream; the theorem assumes [cb_stable]). *)
 From Ark Require Import Model.Base Model.Mask Model.Pool Model.World.
 From Ark Require Import Proofs.ObsSpec Proofs.ObsProofs Proofs.ObsDoc Properties.Common Model.Run.
+From Ark Require Import Proofs.ObsErase Proofs.Rel2HistO.
 From Coq Require Import Lia.
 
 Theorem C08_dispatch_entity_events :
@@ -111,5 +112,29 @@ Example C08_remove_needs_all :
 Proof. vm_compute. split; reflexivity. Qed.
 
 (** One traversal of the dependency graph for all theorems of this file. *)
-Definition C08_all := (C08_dispatch_entity_events, C08_dispatch_entity_relation_events, C08_dispatch_add_events, C08_dispatch_remove_events, C08_dispatch_set_relation_custom_events, C08_reset_clears_every_event_type, C08_remove_predicate_documented).
+(** Observers never influence what an operation does to the world (ObsErase / Rel2HistO): a step that returns in a
+    world with observers of ANY callback kind returns the same value in the world with all observers erased, and the
+    erased result states coincide; a callback can fail only for lack of a lock bit (all 64 held), an unknown observer
+    index, or through the unregistration it issues itself. *)
+Theorem C08_observers_are_transparent_for_the_storage :
+  forall (debug wd : bool) (s : W) (line : list Z) (o : op),
+         decode_op line = Some o ->
+         oe_struct_op o = true ->
+         is_locked s = false ->
+         is_err (step_op debug o (RecordSet.set w_log (fun _ : list (list Z) => []) s)) = false ->
+         oe_E (fst (step debug wd s line)) = fst (step debug wd (oe_E s) line) /\
+         (exists (a : list Z) (s1 : W),
+            step_op debug o (RecordSet.set w_log (fun _ : list (list Z) => []) s) = Ok a s1 /\
+            step_op debug o (oe_E s) = Ok a (oe_E s1)).
+Proof. exact r2o_step_erasure. Qed.
+
+Theorem C08_callback_fails_only_for :
+  forall (oi : nat) (e : ent) (s : W) (er : err) (s' : W),
+         run_callback oi e s = Err er s' ->
+         lock_lock (w_lock s) = None \/
+         alive s e = true /\ snapshot_entity s e = None \/
+         nth_error (w_obs s) oi = None \/ (exists (k : nat) (sk : W), remove_observer k sk = Err er s').
+Proof. exact oe_run_callback_err. Qed.
+
+Definition C08_all := (C08_observers_are_transparent_for_the_storage, C08_callback_fails_only_for, C08_dispatch_entity_events, C08_dispatch_entity_relation_events, C08_dispatch_add_events, C08_dispatch_remove_events, C08_dispatch_set_relation_custom_events, C08_reset_clears_every_event_type, C08_remove_predicate_documented).
 Print Assumptions C08_all.
